@@ -1,11 +1,117 @@
-(** C20 — exported statements. *)
+(** C20 — exported state re-imports to the same state for every Nibiru module.
+    This file holds only the exported statements (each closed by [exact]). *)
 From Coq Require Import List Bool Arith ZArith.
 Import ListNotations.
-Require Import Nib.C20.SMapDef Nib.C20.Model Nib.C20.Eqdec Nib.C20.Spec Nib.C20.Shape Nib.C20.Check Nib.C20.Proofs.
+Require Import Nib.C20.SMapDef Nib.C20.Model Nib.C20.Eqdec Nib.C20.Spec Nib.C20.Shape Nib.C20.WfB Nib.C20.Check Nib.C20.Proofs.
 
+(** COMPOSED THEOREM over the product of the seven modules, for ANY tree facts [c], any height/time:
+    a well-formed application state exports; the export initialises a fresh chain; the second export is
+    the first with every epoch's start height re-based to the import height [h] (and nothing else
+    changed); and the imported state equals the original on every persistent collection except the
+    explicit list of [Spec.exc] — the two booleans say whether the defect exceptions
+    [ExRewardsIdStale] / [ExTfBankMetadataReset] are needed for this [c]. *)
+Theorem C20_app_roundtrip : forall c F env h t s, wf_app F env s ->
+  exists g s',
+    export_app env s = Some g /\
+    init_app c F env (tf_bankmd (a_tf s)) h t g = Some s' /\
+    export_app env s' = Some (rebase_gen h g) /\
+    state_equiv (negb (match c_rid c with RidLastPlus1 => true | _ => false end)) (negb (c_tf_keeps_bank_md c)) env h t s s'.
+Proof. exact app_roundtrip. Qed.
+Print Assumptions C20_app_roundtrip.
+
+(** export (init (export s)) = export s, for every module but epochs, where it holds modulo the
+    start height (what InitGenesis/AddEpochInfo does: CurrentEpochStartHeight := h; the start TIME is
+    kept because a stored epoch never has the zero time). *)
+Theorem C20_export_roundtrip : forall c F env h t s, wf_app F env s ->
+  exists g s' g', export_app env s = Some g /\ init_app c F env (tf_bankmd (a_tf s)) h t g = Some s' /\
+                  export_app env s' = Some g' /\ gen_equiv h g g'.
+Proof. exact export_roundtrip. Qed.
+Print Assumptions C20_export_roundtrip.
+
+(** The strict statement (no defect exception) for a tree whose two genesis formulas are the repaired ones. *)
+Theorem C20_state_equiv : forall c F env h t s, cfg_ok c = true -> wf_app F env s ->
+  exists g s', export_app env s = Some g /\ init_app c F env (tf_bankmd (a_tf s)) h t g = Some s' /\
+               state_equiv false false env h t s s'.
+Proof. exact state_equiv_strict. Qed.
+Print Assumptions C20_state_equiv.
+
+(** … for which the exception list is exactly [tolerated]. *)
+Theorem C20_exceptions_of_ok_tree : forall c, cfg_ok c = true -> exceptions c = tolerated.
+Proof. exact exceptions_of_ok_cfg. Qed.
+Print Assumptions C20_exceptions_of_ok_tree.
+
+(** Per module. *)
+Theorem C20_sudo_roundtrip : forall s g, export_sudo s = Some g -> export_sudo (init_sudo g) = Some g /\ init_sudo g = s.
+Proof. exact sudo_roundtrip. Qed.
+Print Assumptions C20_sudo_roundtrip.
+
+Theorem C20_inflation_roundtrip : forall s,
+  export_infl (init_infl (export_infl s)) = export_infl s /\ infl_equiv s (init_infl (export_infl s)).
+Proof. intro s. exact (conj (infl_roundtrip s) (infl_state_equiv s)). Qed.
+Print Assumptions C20_inflation_roundtrip.
+
+Theorem C20_epochs_roundtrip : forall h t s, wf_epochs s ->
+  exists s', init_epochs h t (export_epochs s) = Some s' /\
+             export_epochs s' = map (rebase_epoch h) (export_epochs s) /\ epochs_equiv h s s'.
+Proof. exact epochs_roundtrip. Qed.
+Print Assumptions C20_epochs_roundtrip.
+
+Theorem C20_oracle_roundtrip : forall c h t s, wf_oracle' s ->
+  let s' := init_oracle c h t (export_oracle s) in
+  export_oracle s' = export_oracle s /\
+  o_params s' = o_params s /\ o_whitelist s' = o_whitelist s /\ o_feeders s' = o_feeders s /\
+  o_miss s' = o_miss s /\ o_prevotes s' = o_prevotes s /\ o_votes s' = o_votes s /\
+  o_pairs s' = o_pairs s /\ o_rewards s' = o_rewards s /\
+  o_rates s' = map (restamp h t) (o_rates s) /\ o_snaps s' = snaps_of t (o_rates s') /\
+  o_rewards_id s' = rewards_id_after c (map snd (o_rewards s)).
+Proof. exact oracle_init_export. Qed.
+Print Assumptions C20_oracle_roundtrip.
+
+(** the re-derived reward sequence never hands out the id of a pending reward *)
+Theorem C20_oracle_rewards_id_fresh : forall c h t s, c_rid c = RidLastPlus1 -> wf_oracle' s ->
+  rewards_fresh (init_oracle c h t (export_oracle s)).
+Proof. exact rewards_fresh_after. Qed.
+Print Assumptions C20_oracle_rewards_id_fresh.
+
+Theorem C20_tokenfactory_roundtrip : forall c F s, wf_tf F s ->
+  exists g, export_tf s = Some g /\
+  exists s', init_tf c F (tf_bankmd s) g = Some s' /\ export_tf s' = Some g /\
+             tf_params s' = tf_params s /\ tf_denoms s' = tf_denoms s /\ tf_creators s' = tf_creators s /\
+             tf_admins s' = tf_admins s /\ tf_idx s' = tf_idx s /\
+             (c_tf_keeps_bank_md c = true -> tf_bankmd s' = tf_bankmd s).
+Proof. exact tf_roundtrip. Qed.
+Print Assumptions C20_tokenfactory_roundtrip.
+
+Theorem C20_devgas_roundtrip : forall F s, wf_devgas F s -> init_devgas F (export_devgas s) = Some s.
+Proof. exact devgas_roundtrip. Qed.
+Print Assumptions C20_devgas_roundtrip.
+
+Theorem C20_evm_roundtrip : forall F env s, wf_evm F s -> env_sorted env ->
+  exists s', init_evm F env (export_evm env s) = Some s' /\
+             export_evm env s' = export_evm env s /\ evm_equiv env s s'.
+Proof. exact evm_roundtrip. Qed.
+Print Assumptions C20_evm_roundtrip.
+
+(** The two genesis formulas of the tree before its `fix:` commits violate the strict statement. *)
+Theorem C20_rewards_id_stale_refuted : forall c h t, c_rid c = RidLast ->
+  rewards_freshb stale_witness = true /\ rewards_freshb (init_oracle c h t (export_oracle stale_witness)) = false.
+Proof. exact rewards_id_stale_refuted. Qed.
+Print Assumptions C20_rewards_id_stale_refuted.
+
+Theorem C20_tf_bank_metadata_reset_refuted : forall c, c_tf_keeps_bank_md c = false ->
+  exists g s', export_tf tf_md_witness = Some g /\ init_tf c tf_md_funs (tf_bankmd tf_md_witness) g = Some s' /\
+               tf_bankmd s' <> tf_bankmd tf_md_witness.
+Proof. exact tf_bank_md_reset_refuted. Qed.
+Print Assumptions C20_tf_bank_metadata_reset_refuted.
+
+(** The boolean predicates evaluated on implementation traces are sound for the Props above. *)
 Theorem C20_checker_sound : forall k, Pb k = true ->
   gen_equiv (k_h k) (k_e1 k) (k_e2 k) /\
   state_equiv false false (k_env1 k) (k_h k) (k_t k) (k_s1 k) (k_s2 k) /\
   k_q1 k = k_q2 k /\ k_env1 k = k_env2 k.
 Proof. exact Pb_sound. Qed.
 Print Assumptions C20_checker_sound.
+
+Theorem C20_wf_checker_sound : forall F env s, wf_appb F env s = true -> wf_app F env s.
+Proof. exact wf_appb_sound. Qed.
+Print Assumptions C20_wf_checker_sound.
